@@ -526,6 +526,10 @@ pub mod verif {
     pub fn wire_response() -> Vec<f64> {
         crate::deconvolution::wires::verif_wire_response()
     }
+    /// The cross-talk matrix of a block of `n` contiguous wires, row by row.
+    pub fn crosstalk_matrix(n: usize) -> Vec<f64> {
+        crate::deconvolution::wires::verif_a_matrix(n)
+    }
     pub fn pad_response() -> Vec<f64> {
         crate::deconvolution::pads::verif_pad_response()
     }
